@@ -165,7 +165,10 @@ func drawC13(t *rapid.T) c13Case {
 		c.Others = append(c.Others, gen.Policy(t, drawArch(t), gen.Opts{Profile: gen.Small}))
 	}
 	if rapid.IntRange(0, 3).Draw(t, "mutate") == 0 {
-		c.Mutate = []string{"default", "group-action", "drop-group"}[rapid.IntRange(0, 2).Draw(t, "mutateKind")]
+		c.Mutate = []string{"default", "group-action", "drop-group", "retarget", "share-groups"}[rapid.IntRange(0, 4).Draw(t, "mutateKind")]
+		if c.Mutate == "retarget" || c.Mutate == "share-groups" {
+			c.Mutate += ":" + drawArch(t)
+		}
 	}
 	// sometimes an invalid policy in between (error paths must not leave state behind either)
 	if rapid.IntRange(0, 4).Draw(t, "invalidOther") == 0 {
@@ -237,6 +240,27 @@ func checkC13History(raw json.RawMessage) (ev.Result, error) {
 			if len(mod.Groups) > 1 {
 				mod.Groups = mod.Groups[:len(mod.Groups)-1]
 				sp.Syscalls = sp.Syscalls[:len(sp.Syscalls)-1]
+			}
+		default:
+			// the same rules compiled for another architecture: the same value re-targeted, or a second policy value
+			// that shares the group slice with the one compiled before
+			kind, other, _ := strings.Cut(c.Mutate, ":")
+			if spec.ArchInfo(other) == nil {
+				return ev.Result{}, ev.Inconclusivef("unknown mutation %q", c.Mutate)
+			}
+			mod.Arch = other
+			switch kind {
+			case "retarget":
+				seccomp.VerifSetArch(sp, spec.ArchInfo(other))
+			case "share-groups":
+				sp = &seccomp.Policy{DefaultAction: sp.DefaultAction, Syscalls: sp.Syscalls}
+				seccomp.VerifSetArch(sp, spec.ArchInfo(other))
+			default:
+				return ev.Result{}, ev.Inconclusivef("unknown mutation %q", c.Mutate)
+			}
+			c.Mutate = kind
+			if other != c.Policy.Arch {
+				c.Mutate += "-other-architecture"
 			}
 		}
 		got, gerr, pan := assembleAny(sp)
